@@ -52,7 +52,7 @@ func main() {
 // ---------------------------------------------------------------------------------- worker
 
 func worker() {
-	syslog.Level(syslog.LvFatal) // once per process: logging code still runs, nothing is printed
+	syslog.Level(syslog.LvPanic) // once per process: logging code still runs, only Panicf (which must keep panicking as at the default level) prints
 	prop, tier, part := os.Getenv("VERIF_PROP"), env("VERIF_TIER", "quick"), os.Getenv("VERIF_PART")
 	d := props.Registry[prop]
 	if d == nil {
